@@ -632,12 +632,12 @@ def gen_powell_case(rng, tier):
         if dim >= 2 and rng.random() < 0.5:
             e = e + (("*", ("c", 0.25), ("sq", ("-", ("x", 0), ("x", 1)))),)
         x0 = [a0 for _ in range(dim)]
-    elif k < 0.46:
+    elif k < 0.56:
         # small-integer landscapes (every value a small integer): the exact-equality branches of the bookkeeping -
         # t == 0, tied largest decreases, fx == fx2 - occur in several percent of the sweeps
         if dim == 1:
             dim = 2
-        fam = rng.choice(["absrint", "cross", "half", "max", "sq"])
+        fam = rng.choice(["absrint", "cross", "half", "max", "sq", "stairs", "stairs", "stairs", "stairs", "sumabs3", "sumabs3", "absvalley"])
         cs = [float(rng.randint(-3, 3)) for _ in range(dim)]
         term = lambda i, sc=1.0: ("rint", ("-", ("x", i), ("c", cs[i]))) if sc == 1.0 else ("rint", ("*", ("c", sc), ("-", ("x", i), ("c", cs[i]))))
         if fam == "absrint":
@@ -648,9 +648,27 @@ def gen_powell_case(rng, tier):
             e = ("sum",) + tuple(("abs", term(i, 0.5)) for i in range(dim))
         elif fam == "max":
             e = ("sum", ("max", ("abs", term(0)), ("abs", term(1)))) + tuple(("abs", term(i)) for i in range(2, dim))
-        else:
+        elif fam == "sq":
             e = ("sum",) + tuple(("sq", term(i)) for i in range(dim))
-        x0 = [cs[i] + float(rng.randint(-3, 3)) * (2.0 if fam == "half" else 1.0) for i in range(dim)]
+        a0 = float(rng.randint(-8, 8))
+        rest = tuple(("abs", ("rint", ("x", i))) for i in range(2, dim))
+        if fam == "stairs":        # progress by equal unit steps along both axes, sweep after sweep: tied decreases + useful extrapolation
+            e = ("sum", ("*", ("c", 2.0), ("max", ("abs", ("rint", ("x", 0))), ("abs", ("rint", ("x", 1))))),
+                 ("abs", ("rint", ("-", ("x", 0), ("x", 1))))) + rest
+        elif fam == "absvalley":
+            e = ("sum", ("*", ("c", rng.choice([1.0, 2.0, 3.0, 5.0])), ("abs", ("rint", ("-", ("x", 0), ("x", 1))))),
+                 ("abs", ("rint", ("-", ("*", ("c", 0.5), ("+", ("x", 0), ("x", 1))), ("c", float(rng.randint(-8, 8))))))) + rest
+        elif fam == "sumabs3":
+            dim = 3
+            e = ("sum", ("*", ("c", rng.choice([1.0, 2.0])), ("abs", ("rint", ("-", ("x", 0), ("x", 1))))),
+                 ("*", ("c", rng.choice([1.0, 2.0])), ("abs", ("rint", ("-", ("x", 1), ("x", 2))))),
+                 ("abs", ("rint", ("-", ("sum", ("x", 0), ("x", 1), ("x", 2)), ("c", float(rng.randint(-9, 9)))))))
+        if fam in ("stairs", "absvalley"):
+            x0 = [a0, a0 + rng.choice([0.0, 1.0, -1.0, 2.0])] + [float(rng.randint(-2, 2)) for _ in range(2, dim)]
+        elif fam == "sumabs3":
+            x0 = [a0, a0 + rng.choice([0.0, 1.0]), a0 + rng.choice([0.0, -1.0])]
+        else:
+            x0 = [cs[i] + float(rng.randint(-3, 3)) * (2.0 if fam == "half" else 1.0) for i in range(dim)]
     else:
         e = solvergen.gen_cost(rng, dim, allow_vector=False)[1]
         x0 = [rng.choice([0.0, 1.0, -2.5, rng.uniform(-4, 4), dyadic(rng, -4, 4, 4)]) for _ in range(dim)]
@@ -822,6 +840,7 @@ def powell_rule_monitor(tag, c, r, hist):
             cur.append(r["ls"][e[1]])
     segs.append((cur, None))
     pending = None          # (fx, fx2, t, x, x1, bigind) of the extrapolation that precedes this segment
+    nsweep = 0
     key = "fmin_powell" if tag == "mystic" else "reference-fmin_powell"
     for searches, ext in segs:
         if pending is not None:
@@ -856,7 +875,9 @@ def powell_rule_monitor(tag, c, r, hist):
             decs.append(f2 - fval)
             if (f2 - fval) > delta:
                 delta = f2 - fval; bigind = j
-        if delta > 0.0 and sum(1 for dd in decs if dd == delta) > 1:
+        tied = delta > 0.0 and sum(1 for dd in decs if dd == delta) > 1
+        nsweep += 1
+        if tied:
             hadd(hist, "powell:%s:tied-largest-decrease" % tag)
         if ext is None:
             break
@@ -872,6 +893,9 @@ def powell_rule_monitor(tag, c, r, hist):
         else:
             hadd(hist, "powell:%s:fx<=fx2%s" % (tag, "(equal)" if fx == fx2 else ""))
         pending = (fx, fx2, t if t is not None else 0.0, x, x1, bigind)
+        if tied and t is not None and t < 0.0:
+            # the replaced direction depends on WHICH of the tied directions is bigind (first, strict `>`)
+            hadd(hist, "powell:%s:tied-largest-decrease-then-replacement:%s" % (tag, "first-sweep" if nsweep == 1 else "later-sweep"))
         x1 = x.copy()
     final = r["direc"]
     if len(final) != len(direc) or not all(same_vec(a, b) for a, b in zip(final, direc)):
@@ -1206,18 +1230,27 @@ def main(tier, seed):
             "(plateau / symmetric / smooth costs; every strategy call inside it recorded) + 3 fmin cases (real fmin vs reference fmin vs Lean; dim 1-%d, "
             "smooth / abs / ill-conditioned / rosenbrock costs, zero coordinates, xtol/ftol 0.5..1e-10, limits incl. 0,1,N+1) + 0.5 stepped "
             "NelderMeadSimplexSolver runs (per-step replay, branch histogram) + 3 fmin_powell cases (real vs reference with recorded Brent searches vs "
-            "Lean bookkeeping model; dim 1-%d, custom direction sets, guess at the optimum, constant objective). non-trivial = strategy call with >= 2 "
-            "crossover draws / DE run with more replacements than members and a rejection / fmin with >= 3 iterations / fmin_powell with >= 2 iterations"
+            "Lean bookkeeping model AND vs the whole run recomputed from x0 with the modelled Brent; dim 1-%d, custom direction sets, guess at the optimum, "
+            "constant objective, plateau / exchange-symmetric / small-integer landscapes for the exact-equality branches) + 2 bracket + 4 brent cases on generated "
+            "1-D functions (23 kinds: smooth, kinked, flat, steps, spikes, unbounded below, NaN regions, minima at 1e6..1e15; +inf outside strict ranges; brack "
+            "None/2/3/malformed; tol 0..1; maxiter 0..500; grow_limit 1..1000) + 2 _linesearch_powell calls (mystic's and the reference's; n-D costs, zero / tiny / "
+            "skew directions, strict ranges), each compared bit for bit with Model/Brent.lean and judged by the line-search monitors and scipy.optimize. non-trivial "
+            "= strategy call with >= 2 crossover draws / DE run with more replacements than members and a rejection / fmin with >= 3 iterations / fmin_powell with "
+            ">= 2 iterations / line search with >= 6 evaluations"
             % ((6, 4, 4) if tier == "quick" else (25, 8, 6)))
     tb = ["Lean 4.33 kernel; axioms per theorem under coverage.theorems (subset of propext, Classical.choice, Quot.sound)",
-          "hand-written models Model/Strategy.lean, Model/RefFmin.lean, Model/Powell.lean (+ shared Model/Solver.lean, Model/NelderMead.lean) tied to /repo by the "
-          "bit-exact replays counted in the histogram (strat:*, model:de, nm:model:*, model:nm-steps, powell:model:*)",
+          "hand-written models Model/Strategy.lean, Model/RefFmin.lean, Model/Powell.lean, Model/Brent.lean (+ shared Model/Solver.lean, Model/NelderMead.lean) tied to /repo by the "
+          "bit-exact replays counted in the histogram (strat:*, model:de, nm:model:*, model:nm-steps, powell:model:*, brent:model:*)",
+          "scipy.optimize.bracket / scipy.optimize.brent of the installed scipy: reference of the monitors */differs-from-scipy-* only (agreement measured: every abscissa, "
+          "result and iteration count identical on all generated cases; skipped and counted if scipy is missing)",
           "random.sample / randrange / random are replaced by recording generators for the duration of a strategy call (contract of random.sample: "
-          "distinct positions of the pool it is handed); the Brent line search and the initial-simplex / convergence expressions are oracles of the "
-          "theorems (the Float driver implements the latter two; Brent results are recorded tables)",
+          "distinct positions of the pool it is handed); the line search (in the Powell refinement theorems) and the initial-simplex / convergence expressions are "
+          "parameters of the theorems (the Float driver implements all three; Brent results are recorded tables in the `powell` replays and computed by Model/Brent.lean in the "
+          "`powellb` replays)",
           "refFmin / refPowell are transcriptions of mystic/_scipy060optimize.py, tied to that file by the same replays (reference run vs transcription)",
           "DSL twins harness/dsl.py and Model/Dsl.lean for the cost functions"]
-    assumptions = ["costs never return NaN/inf (such runs are skipped and counted)",
+    assumptions = ["costs never return NaN/inf in the fmin / fmin_powell streams (such runs are skipped and counted); the bracket / brent / _linesearch_powell streams include NaN and inf values "
+                   "(order monitors apply to NaN-free runs; the bit-exact replay applies to all)",
                    "unconstrained, unbounded, unpenalised problems (the property's hypothesis); limits maxfun > 1 and maxiter > 0 for the equality with the "
                    "reference (below that mystic stops before building the simplex / before the first sweep: checked against the model, counted as limit-edge)",
                    "runs in which two vertices carry exactly equal energies are compared real-vs-real only (numpy.argsort's order among ties is unspecified)",
